@@ -574,6 +574,35 @@ int _vnacal_new_add_common(vnacal_new_add_arguments_t vnaa)
 	qsort((void *)m_port_map, s_ports, sizeof(int), int_cmp);
 
 	/*
+	 * An abbreviated M matrix has a row (column) for each port of
+	 * the standard: every one of them must be a row (column) of the
+	 * calibration.  With a rectangular calibration the port map is
+	 * only known to fit the S dimensions.
+	 */
+	if (b_rows < full_m_rows) {
+	    for (int b_row = 0; b_row < b_rows; ++b_row) {
+		if (m_port_map[b_row] > full_m_rows) {
+		    _vnacal_error(vcp, VNAERR_USAGE, "%s: port %d has no "
+			    "row in the %d x %d measurement matrix of the "
+			    "calibration", function, m_port_map[b_row],
+			    full_m_rows, full_m_columns);
+		    goto out;
+		}
+	    }
+	}
+	if (b_columns < full_m_columns) {
+	    for (int b_column = 0; b_column < b_columns; ++b_column) {
+		if (m_port_map[b_column] > full_m_columns) {
+		    _vnacal_error(vcp, VNAERR_USAGE, "%s: port %d has no "
+			    "column in the %d x %d measurement matrix of the "
+			    "calibration", function, m_port_map[b_column],
+			    full_m_rows, full_m_columns);
+		    goto out;
+		}
+	    }
+	}
+
+	/*
 	 * Make a map from the cells of the argument B matrix to the cells
 	 * of the vnacal_new_measurement_t M matrix in (with port map).
 	 */
